@@ -326,6 +326,26 @@ func (c *check) Init(tier string, seed int64) engine.Space {
 		}
 		c.fams = keep
 	}
+	if names := os.Getenv("C13_DEVS"); names != "" { // development aid: keep only the deviation sets that touch one of the named dimensions ("content+" = the tall contents)
+		for _, f := range c.fams {
+			var keep [][]dv
+			for _, set := range f.devs {
+				for _, x := range set {
+					n := dimNames[x.dim]
+					if strings.Contains(","+names+",", ","+n+",") || (n == "content" && x.val >= 8 && strings.Contains(","+names+",", ",content+,")) {
+						keep = append(keep, set)
+						break
+					}
+				}
+			}
+			if len(f.devs) > 0 {
+				f.devs = keep
+				if len(keep) == 0 {
+					f.structs = nil
+				}
+			}
+		}
+	}
 	c.total = 0
 	var fb []map[string]any
 	for _, f := range c.fams {
